@@ -3,10 +3,52 @@ package deco
 import (
 	"context"
 	"strings"
+	"sync"
 	"time"
 
 	"github.com/sharedcode/sop"
+	"github.com/sharedcode/sop/cache"
 )
+
+// dataKeys remembers every non-lock key that was ever written through the decorated L2, so that Cool
+// can evict exactly the cached DATA (nodes, item values, handles, store infos) and leave lock records
+// alone - the state a process is in after its cache entries expired (every entry has its own TTL) or
+// were evicted for capacity while the locks, which are refreshed, are still held.
+var dataKeys sync.Map
+
+func note(keys ...string) {
+	for _, k := range keys {
+		if keyClass(k) != "lock" {
+			dataKeys.Store(k, struct{}{})
+		}
+	}
+}
+
+// Cool evicts every data entry from the L2 cache (directly on the wrapped cache: not a plan site) and
+// from the process-global L1 node and handle caches. It returns the number of L2 keys evicted.
+func (c *L2) Cool(ctx context.Context) int {
+	var keys []string
+	var nodes []sop.UUID
+	dataKeys.Range(func(k, _ any) bool {
+		ks := k.(string)
+		keys = append(keys, ks)
+		if keyClass(ks) == "node" {
+			if id, err := sop.ParseUUID(ks[1:]); err == nil {
+				nodes = append(nodes, id)
+			}
+		}
+		return true
+	})
+	if len(keys) > 0 {
+		c.In.Delete(ctx, keys)
+	}
+	l1 := cache.GetGlobalL1Cache(c)
+	if len(nodes) > 0 {
+		l1.DeleteNodes(ctx, nodes)
+	}
+	l1.Handles.Clear()
+	return len(keys)
+}
 
 // keyClass names what an L2 key caches, so that site labels (and violation signatures) say which
 // cache entry a fault hit: node blobs "N<uuid>", item values "V<uuid>", handles "<uuid>", store info
@@ -66,9 +108,11 @@ func (c *L2) GetEx(ctx context.Context, key string, exp time.Duration) (ok bool,
 	return
 }
 func (c *L2) SetStruct(ctx context.Context, key string, value interface{}, exp time.Duration) error {
+	note(key)
 	return do("l2.SetStruct["+keyClass(key)+"]", func() error { return c.In.SetStruct(ctx, key, value, exp) })
 }
 func (c *L2) SetStructs(ctx context.Context, keys []string, values []interface{}, exp time.Duration) error {
+	note(keys...)
 	return do("l2.SetStructs["+keysClass(keys)+"]", func() error { return c.In.SetStructs(ctx, keys, values, exp) })
 }
 func (c *L2) GetStruct(ctx context.Context, key string, target interface{}) (ok bool, err error) {
